@@ -640,6 +640,14 @@ func genDefrag(ctx *Ctx, emit func(any, string)) {
 		if r.Pct(30) {
 			dfPreErr(root, r, 60)
 		}
+		if r.Pct(20) {
+			// no-nesting switched on after the nested values are in: it governs
+			// later pushes only, Defrag must still descend
+			root.Opt |= 256
+			if len(root.Els) > 0 && root.Els[0] != nil && root.Els[0].T == "stack" && r.Bool() {
+				root.Els[0].Opt |= 256
+			}
+		}
 		emit(mk(dfRandArgs(r), root), "random")
 	}
 	// -- nesting, random trees (mostly valid) and a malformed stream
